@@ -102,7 +102,7 @@ func (rp *Replayer) newRoot() (*replayState, error) {
 	if rp.M.ObjMode == "single" {
 		thresh = 1
 	}
-	id, err := lk.CreatePool(rp.Ctx, PoolName, "k", rp.M.Dir, 0, thresh)
+	id, err := lk.CreatePool(rp.Ctx, PoolName, "k", rp.M.Dir, rp.M.Stride, thresh)
 	if err != nil {
 		return nil, err
 	}
@@ -122,6 +122,7 @@ type trie struct {
 // handle per step.
 func (rp *Replayer) ReplayAll(hs []History) error {
 	rp.cmp = expr.NewValueCompareFn(order.Asc, true)
+	emptyVal = rp.M.EmptyVal
 	root := &trie{kids: map[string]*trie{}}
 	for _, h := range hs {
 		n := root
@@ -301,6 +302,21 @@ func (rp *Replayer) apply(h History, st *replayState) (bool, error) {
 		if i := rp.firstUnsorted(rows); i >= 0 {
 			rp.issue(h, KUnsorted, "scan of branch %q (%s) is not in pool-key order at position %d: %v", b, rp.M.Dir, i, rows)
 			okAll = false
+		}
+		// the same scan with one scan thread (the multi-threaded plan re-merges by key)
+		if rows1, err := obs.QueryPar(rp.Ctx, fmt.Sprintf("from %s@%s", PoolName, b), 1); err != nil {
+			rp.issue(h, KUnreadable, "branch %q cannot be read at parallelism 1: %v", b, err)
+			okAll = false
+		} else {
+			g1 := uids(rows1)
+			sort.Ints(g1)
+			if !equalInts(g1, want) {
+				rp.issue(h, KContents, "branch %q read with one scan thread holds values %v but the model predicts %v", b, g1, want)
+				okAll = false
+			} else if i := rp.firstUnsorted(rows1); i >= 0 {
+				rp.issue(h, KUnsorted, "scan of branch %q (%s, one scan thread) is not in pool-key order at position %d: %v", b, rp.M.Dir, i, rows1)
+				okAll = false
+			}
 		}
 		rows2, err := obs.Query(rp.Ctx, fmt.Sprintf("from %s@%s", PoolName, b))
 		if err == nil && !Equal(rows, rows2) {
@@ -559,10 +575,17 @@ func (rp *Replayer) checkObject(h History, st *replayState, oi ObjectInfo, vals 
 	return true
 }
 
-// uids extracts the u field of each row.
+// emptyVal is the value id the current model renders as {} (set by the replayer).
+var emptyVal int
+
+// uids extracts the u field of each row ({} maps to the model's EmptyVal).
 func uids(rows []string) []int {
 	var out []int
 	for _, r := range rows {
+		if r == "{}" && emptyVal != 0 {
+			out = append(out, emptyVal)
+			continue
+		}
 		i := strings.LastIndex(r, "u:")
 		if i < 0 {
 			out = append(out, -1)
